@@ -44,12 +44,12 @@ type C10Case struct {
 	Scenario string
 	Mode     string // record, crash, fault
 	K        int
-	Half     bool   `json:",omitempty"`
-	Errno    int    `json:",omitempty"`
-	Forever  bool   `json:",omitempty"`
-	K2       int    `json:",omitempty"` // second fault point (0 = none; call 0 is never a second point)
-	Errno2   int    `json:",omitempty"`
-	Sig      int    `json:",omitempty"`
+	Half     bool `json:",omitempty"`
+	Errno    int  `json:",omitempty"`
+	Forever  bool `json:",omitempty"`
+	K2       int  `json:",omitempty"` // second fault point (0 = none; call 0 is never a second point)
+	Errno2   int  `json:",omitempty"`
+	Sig      int  `json:",omitempty"`
 }
 
 func init() {
@@ -77,6 +77,11 @@ var c10Plain = map[string][]byte{
 	"big":   append(randBytes(41, 14000), textBytes(42, 6000)...),
 	"other": []byte("pre-existing target content\n"),
 	"large": textBytes(43, 1000000),
+}
+
+func init() {
+	// content of the two-stream archive "xz2:small"
+	c10Plain["small2"] = append(append([]byte(nil), c10Plain["small"]...), c10Plain["small"]...)
 }
 
 var c10ContentCache sync.Map
@@ -181,6 +186,9 @@ func c10Scenarios() []C10Scn {
 	add(C10Scn{Name: "z-xz-c", Args: []string{"-c", "file"}, Files: []c10File{f("file", "plain:small")}, Input: "file", Format: "xz", Keep: true, Stdout: true, Plain: "small", InputOK: true, ExpectOK: true})
 	add(C10Scn{Name: "z-xz-kf-target-exists", Args: []string{"-kf", "file"}, Files: []c10File{f("file", "plain:small"), f("file.xz", "plain:other")}, Input: "file", Target: "file.xz", Format: "xz", Keep: true, Plain: "small", InputOK: true, ExpectOK: true})
 	add(C10Scn{Name: "z-xz-already-suffixed", Args: []string{"g.xz"}, Files: []c10File{f("g.xz", "plain:small")}, Input: "g.xz", Format: "xz", Plain: "small", InputOK: false, ExpectOK: false})
+	// -z given after -d forces compression (format left at its default)
+	add(C10Scn{Name: "z-xz-d-z", Args: []string{"-d", "-z", "file"}, Files: []c10File{f("file", "plain:small")}, Input: "file", Target: "file.xz", Format: "xz", Plain: "small", InputOK: true, ExpectOK: true})
+	add(C10Scn{Name: "z-xz-dzk", Args: []string{"-dzk", "file"}, Files: []c10File{f("file", "plain:small")}, Input: "file", Target: "file.xz", Format: "xz", Keep: true, Plain: "small", InputOK: true, ExpectOK: true})
 	add(C10Scn{Name: "z-xz-name-with-space", Args: []string{"--", "a b"}, Files: []c10File{f("a b", "plain:small")}, Input: "a b", Target: "a b.xz", Format: "xz", Plain: "small", InputOK: true, ExpectOK: true})
 	// decompress
 	add(C10Scn{Name: "d-xz-small", Args: []string{"-d", "file.xz"}, Files: []c10File{f("file.xz", "xz:small")}, Input: "file.xz", Target: "file", Decompress: true, Format: "xz", Plain: "small", InputOK: true, ExpectOK: true})
@@ -195,6 +203,8 @@ func c10Scenarios() []C10Scn {
 	add(C10Scn{Name: "d-lzma-truncated-large", Args: []string{"-d", "-0", "big.lzma"}, Files: []c10File{f("big.lzma", "lzma-trunc:large")}, Input: "big.lzma", Target: "big", Decompress: true, Format: "lzma", Plain: "large", InputOK: false, ExpectOK: false})
 	add(C10Scn{Name: "d-xz-target-exists", Args: []string{"-d", "file.xz"}, Files: []c10File{f("file.xz", "xz:small"), f("file", "plain:other")}, Input: "file.xz", Target: "file", Decompress: true, Format: "xz", Plain: "small", InputOK: true, ExpectOK: false})
 	add(C10Scn{Name: "d-xz-f-target-exists", Args: []string{"-d", "-f", "file.xz"}, Files: []c10File{f("file.xz", "xz:small"), f("file", "plain:other")}, Input: "file.xz", Target: "file", Decompress: true, Format: "xz", Plain: "small", InputOK: true, ExpectOK: true})
+	// two concatenated streams with stream padding: a valid archive, decoded to both contents
+	add(C10Scn{Name: "d-xz-two-streams", Args: []string{"-d", "both.xz"}, Files: []c10File{f("both.xz", "xz2:small")}, Input: "both.xz", Target: "both", Decompress: true, Format: "xz", Plain: "small2", InputOK: true, ExpectOK: true})
 	add(C10Scn{Name: "d-lzma-small", Args: []string{"-d", "file.lzma"}, Files: []c10File{f("file.lzma", "lzma:small")}, Input: "file.lzma", Target: "file", Decompress: true, Format: "lzma", Plain: "small", InputOK: true, ExpectOK: true})
 	add(C10Scn{Name: "d-txz", Args: []string{"-d", "a.txz"}, Files: []c10File{f("a.txz", "xz:small")}, Input: "a.txz", Target: "a.tar", Decompress: true, Format: "xz", Plain: "small", InputOK: true, ExpectOK: true})
 	add(C10Scn{Name: "d-unknown-suffix", Args: []string{"-d", "f.dat"}, Files: []c10File{f("f.dat", "xz:small")}, Input: "f.dat", Decompress: true, Format: "xz", Plain: "small", InputOK: false, ExpectOK: false})
